@@ -269,7 +269,7 @@ impl Prop for C03 {
     }
     fn runs(&self, tier: Tier) -> u64 {
         match tier {
-            Tier::Quick => 1300,
+            Tier::Quick => 900,
             Tier::Thorough => 30000,
         }
     }
